@@ -62,42 +62,80 @@ def prepareAuth : Auth → Json
   | .conj ids => .obj [("kind", .str "EntitlementConjunctionSet"), ("entitlements", entitlementsJson ids)]
   | .disj ids => .obj [("kind", .str "EntitlementDisjunctionSet"), ("entitlements", entitlementsJson ids)]
 
+abbrev PResults := List String    -- `TypePreparationResults`: the composite / interface types seen so far (by type ID)
+
 mutual
-/-- `PrepareType` -/
-def prepareType : CType → Json
-  | .nil => .str ""
-  | .prim id => .obj [("kind", .str id)]
-  | .opt t => .obj [("type", prepareType t), ("kind", .str "Optional")]
-  | .varr t => .obj [("type", prepareType t), ("kind", .str "VariableSizedArray")]
-  | .carr n t => .obj [("type", prepareType t), ("kind", .str "ConstantSizedArray"), ("size", .num n)]
-  | .dict k v => .obj [("key", prepareType k), ("value", prepareType v), ("kind", .str "Dictionary")]
-  | .range t => .obj [("element", prepareType t), ("kind", .str "InclusiveRange")]
-  | .cap t => .obj [("type", prepareType t), ("kind", .str "Capability")]
-  | .ref a t => .obj [("type", prepareType t), ("kind", .str "Reference"), ("authorization", prepareAuth a)]
-  | .inter ts => .obj [("kind", .str "Intersection"), ("typeID", .str (CType.inter ts).id), ("types", .arr (prepareTypes ts))]
-  | .func view tps ps ret =>
-    .obj [("kind", .str "Function"), ("typeID", .str (CType.func view tps ps ret).id),
-          ("typeParameters", .arr (prepareTParams tps)), ("parameters", .arr (prepareParams ps)),
-          ("return", prepareType ret), ("purity", .str (if view then "view" else ""))]
-  | .comp kind id extra fs is =>
-    .obj [("type", prepareType extra), ("kind", .str kind.jsonKind), ("typeID", .str id),
-          ("fields", .arr (prepareFields fs)), ("initializers", .arr (prepareInits is))]
-  | .seen id => .str id
-def prepareTypes : Types → List Json
-  | .nil => [] | .cons t r => prepareType t :: prepareTypes r
-def prepareFields : Fields → List Json
-  | .nil => []
-  | .cons n t r => .obj [("type", prepareType t), ("id", .str n)] :: prepareFields r
-def prepareParams : Params → List Json
-  | .nil => []
-  | .cons l i t r => .obj [("type", prepareType t), ("label", .str l), ("id", .str i)] :: prepareParams r
-def prepareInits : Inits → List Json
-  | .nil => [] | .cons ps r => .arr (prepareParams ps) :: prepareInits r
-def prepareTParams : TParams → List Json
-  | .nil => []
-  | .cons n .nil r => .obj [("name", .str n), ("typeBound", .null)] :: prepareTParams r
-  | .cons n b r => .obj [("name", .str n), ("typeBound", prepareType b)] :: prepareTParams r
+/-- `PrepareType` with its `results` table: a composite / interface type that was seen before in the
+same type tree is encoded as its bare type ID -/
+def prepareTypeR : CType → PResults → Json × PResults
+  | .nil, rs => (.str "", rs)
+  | .prim id, rs => (.obj [("kind", .str id)], rs)
+  | .opt t, rs => let (j, rs) := prepareTypeR t rs; (.obj [("type", j), ("kind", .str "Optional")], rs)
+  | .varr t, rs => let (j, rs) := prepareTypeR t rs; (.obj [("type", j), ("kind", .str "VariableSizedArray")], rs)
+  | .carr n t, rs =>
+    let (j, rs) := prepareTypeR t rs; (.obj [("type", j), ("kind", .str "ConstantSizedArray"), ("size", .num n)], rs)
+  | .dict k v, rs =>
+    let (kj, rs) := prepareTypeR k rs
+    let (vj, rs) := prepareTypeR v rs
+    (.obj [("key", kj), ("value", vj), ("kind", .str "Dictionary")], rs)
+  | .range t, rs => let (j, rs) := prepareTypeR t rs; (.obj [("element", j), ("kind", .str "InclusiveRange")], rs)
+  | .cap t, rs => let (j, rs) := prepareTypeR t rs; (.obj [("type", j), ("kind", .str "Capability")], rs)
+  | .ref a t, rs =>
+    let (j, rs) := prepareTypeR t rs
+    (.obj [("type", j), ("kind", .str "Reference"), ("authorization", prepareAuth a)], rs)
+  | .inter ts, rs =>
+    let (js, rs) := prepareTypesR ts rs
+    (.obj [("kind", .str "Intersection"), ("typeID", .str (CType.inter ts).id), ("types", .arr js)], rs)
+  | .func view tps ps ret, rs =>
+    let (tj, rs) := prepareTParamsR tps rs
+    let (pj, rs) := prepareParamsR ps rs
+    let (rj, rs) := prepareTypeR ret rs
+    (.obj [("kind", .str "Function"), ("typeID", .str (CType.func view tps ps ret).id),
+           ("typeParameters", .arr tj), ("parameters", .arr pj),
+           ("return", rj), ("purity", .str (if view then "view" else ""))], rs)
+  | .comp kind id extra fs is, rs =>
+    if rs.contains id then (.str id, rs) else
+    let rs := id :: rs
+    let (fj, rs) := prepareFieldsR fs rs
+    let (ij, rs) := prepareInitsR is rs
+    let (ej, rs) := prepareTypeR extra rs
+    (.obj [("type", ej), ("kind", .str kind.jsonKind), ("typeID", .str id),
+           ("fields", .arr fj), ("initializers", .arr ij)], rs)
+  | .seen id, rs => (.str id, rs)
+def prepareTypesR : Types → PResults → List Json × PResults
+  | .nil, rs => ([], rs)
+  | .cons t r, rs => let (j, rs) := prepareTypeR t rs; let (js, rs) := prepareTypesR r rs; (j :: js, rs)
+def prepareFieldsR : Fields → PResults → List Json × PResults
+  | .nil, rs => ([], rs)
+  | .cons n t r, rs =>
+    let (j, rs) := prepareTypeR t rs
+    let (js, rs) := prepareFieldsR r rs
+    (.obj [("type", j), ("id", .str n)] :: js, rs)
+def prepareParamsR : Params → PResults → List Json × PResults
+  | .nil, rs => ([], rs)
+  | .cons l i t r, rs =>
+    let (j, rs) := prepareTypeR t rs
+    let (js, rs) := prepareParamsR r rs
+    (.obj [("type", j), ("label", .str l), ("id", .str i)] :: js, rs)
+def prepareInitsR : Inits → PResults → List Json × PResults
+  | .nil, rs => ([], rs)
+  | .cons ps r, rs =>
+    let (j, rs) := prepareParamsR ps rs
+    let (js, rs) := prepareInitsR r rs
+    (.arr j :: js, rs)
+def prepareTParamsR : TParams → PResults → List Json × PResults
+  | .nil, rs => ([], rs)
+  | .cons n .nil r, rs =>
+    let (js, rs) := prepareTParamsR r rs
+    (.obj [("name", .str n), ("typeBound", .null)] :: js, rs)
+  | .cons n b r, rs =>
+    let (j, rs) := prepareTypeR b rs
+    let (js, rs) := prepareTParamsR r rs
+    (.obj [("name", .str n), ("typeBound", j)] :: js, rs)
 end
+
+/-- `PrepareType(t, TypePreparationResults{})` -/
+def prepareType (t : CType) : Json := (prepareTypeR t []).1
 
 /-- `encodeBytes` of an address: `0x` + lower-case hex -/
 def addrJson (bs : List UInt8) : Json := .str (String.ofList ('0' :: 'x' :: hexEncode bs))
@@ -259,7 +297,14 @@ def readCompKindJson : String → Option CompKind
 /-- the keys of `simpleTypes` -/
 def isSimpleTypeName (k : String) : Bool := k == "Bytes" || Verif.Gen.CcfTags.jsonSimpleTypes.contains k
 
-abbrev Results := List String
+/-- `typeDecodingResults`: type ID -> decoded type; `none` while the type is still being decoded (a
+reference from inside its own declaration: printed `(rec id)`) -/
+abbrev Results := List (String × Option CType)
+
+def Results.finish (rs : Results) (id : String) (t : CType) : Results :=
+  match rs with
+  | [] => []
+  | (k, d) :: r => if k == id then (k, some t) :: r else (k, d) :: Results.finish r id t
 
 mutual
 /-- `decodeType` -/
@@ -267,8 +312,10 @@ def decodeType (j : Json) (rs : Results) : D (CType × Results) :=
   match j with
   | .str s =>
     if s == "" then pure (.nil, rs)
-    else if rs.contains s then pure (.seen s, rs)
-    else .error .err                       -- `toObject` of a string
+    else match rs.lookup s with
+      | some (some t) => pure (t, rs)
+      | some none => pure (.seen s, rs)
+      | none => .error .err                -- `toObject` of a string
   | .obj kvs => do
     let ⟨kj, _⟩ ← getKey kvs "kind"
     let kind ← toStr kj
@@ -346,11 +393,12 @@ def decodeType (j : Json) (rs : Results) : D (CType × Results) :=
             let ⟨tj, _⟩ ← getKey kvs "type"
             decodeType tj rs
           else pure (CType.nil, rs) : D (CType × Results))
-        let rs := id :: rs
+        let rs := (id, none) :: rs
         let ⟨fj, _⟩ ← getKey kvs "fields"
         let ⟨fxs, _⟩ ← asArr fj
         let (fs, rs) ← decodeFieldTypes fxs rs
-        pure (.comp ck id extra fs is, rs)
+        let t := CType.comp ck id extra fs is
+        pure (t, rs.finish id t)
   | _ => .error .err
 termination_by sizeOf j
 decreasing_by all_goals (simp_wf; omega)
